@@ -14,7 +14,14 @@ def reap_children(grace=0.5):
     except Exception:
         return 0
     me = psutil.Process(os.getpid())
-    kids = me.children(recursive=True)
+    kids = []
+    for k in me.children(recursive=True):
+        try:
+            if 'resource_tracker' in ' '.join(k.cmdline()):
+                continue  # multiprocessing's own helper of this (long-lived) shard process
+        except Exception:
+            pass
+        kids.append(k)
     for k in kids:
         try:
             k.terminate()
